@@ -1167,6 +1167,29 @@ def c14(ctx):
                     "observed": {"exit": obs["exit"], "stderr": obs["stderr"][-1500:]}, "problems": found})
     # the same files named in several forms, through excluded directories, in different orders
     arg_forms_family(ctx, "a file's result depends on how and where it was named among the arguments")
+    # the same concurrent calls under the Go race detector: a parsed patch that is written to while it is applied
+    # (a memo table in a matcher, a slice of the patch reused as scratch space) is a data race even when the results agree
+    rh = common.build_race_harness()
+    if rh is None:
+        ctx.count("race_harness_unavailable")
+    else:
+        d = ctx.scratch("race")
+        pth = os.path.join(d, "in.jsonl")
+        sample = [c for c in cases if len(c.get("patches", [])) == 1][: (60 if ctx.tier == "quick" else 1200)]
+        with open(pth, "w") as f:
+            for c in sample:
+                f.write(json.dumps(c) + "\n")
+        r = run([rh, "api", "-inputs", pth, "-rep", "1", "-conc", "8"], timeout=1800,
+                env=dict(os.environ, GORACE="halt_on_error=0 history_size=2"))
+        ctx.evaluations += len(sample)
+        ctx.count("race_detector_cases", len(sample))
+        if "WARNING: DATA RACE" in r.stderr:
+            first = r.stderr[r.stderr.index("WARNING: DATA RACE"):][:1800]
+            ctx.violation("data race while one parsed patch is applied from several goroutines: " +
+                          " / ".join(l.strip() for l in first.split("\n")[1:6]),
+                          {"input": {"cases": [c["id"] for c in sample][:10], "how": "zzverif-race api -conc 8 (go build -race)"}, "report": first})
+        elif r.returncode != 0:
+            ctx.broken("harness", "race-detector run of the api stream failed: " + r.stderr[-800:])
     # library API: repeated and concurrent Apply on one parsed patch
     outs = run_api(ctx, cases[: (150 if ctx.tier == "quick" else 2000)], rep=3, conc=8)
     byid = {c["id"]: c for c in cases}
